@@ -62,8 +62,7 @@ func RegisterIsolated(name string, f IsolatedFunc) {
 
 // harnessFault reports whether a crash text points at harness code rather than immudb.
 func harnessFault(text string) bool {
-	for _, m := range frameRe.FindAllStringSubmatch(text, -1) {
-		name := m[1]
+	for _, name := range frames(text) {
 		if strings.HasPrefix(name, "runtime") || strings.HasPrefix(name, "panic") || strings.HasPrefix(name, "sync.") || strings.HasPrefix(name, "internal/") {
 			continue
 		}
